@@ -5,6 +5,7 @@ from typing import Any, Optional, Sequence
 import numpy as np
 
 from skops.io._audit import Node
+from skops.io._numpy import get_bit_generator_cls
 from skops.io._utils import LoadContext, gettype
 
 PROTOCOL = 0
@@ -23,8 +24,8 @@ class RandomGeneratorNode(Node):
 
     def _construct(self):
         # first restore the state of the bit generator
-        bit_generator = gettype(
-            "numpy.random", self.children["bit_generator_state"]["bit_generator"]
+        bit_generator = get_bit_generator_cls(
+            self.children["bit_generator_state"]["bit_generator"]
         )()
         bit_generator.state = self.children["bit_generator_state"]
 
